@@ -584,6 +584,10 @@ def _reals_obs(statements):
     return out
 
 
+def _real_tokens(text):
+    return gen_schema.real_tokens(_x, text)
+
+
 def _run_timing(case):
     fam, n = case['timing'], case['n']
     fails = []
@@ -706,7 +710,8 @@ def run_impl(case):
             fail('fresh-loader-raises:%s' % type(e).__name__, 'a fresh loader raised %s on texts the first loader accepted' % type(e).__name__)
     if outcome != 'builtin':
         _afterlife(x, loader, accepted, outcome, m, deep_before_build, fail, stats)
-    obs = [outs, stmts, Sym(outcome), reals]
+    toks = [Sym('tokens')] + [[_real_tokens(t), Sym('same')] for t in texts]
+    obs = [outs, stmts, Sym(outcome), reals, toks]
     nontrivial = (0 < len(accepted) < len(texts)) or outcome in ('parsing', 'meta')
     return {'obs': obs, 'd_fail': fails, 'nontrivial': nontrivial, 'key': dumps(texts), 'stats': stats}
 
@@ -805,8 +810,12 @@ def model_line(case):
 
 def model_obs(case, ans):
     # the model lists every value `parseReal` reads; the comparison is restricted to the texts float() reads exactly
-    if isinstance(ans, list) and len(ans) == 4 and isinstance(ans[3], list):
-        ans = ans[:3] + [[ans[3][0]] + [e for e in ans[3][1:] if isinstance(e, list) and e and _real_comparable(e[0])]]
+    if isinstance(ans, list) and len(ans) == 5 and isinstance(ans[3], list):
+        ans = ans[:3] + [[ans[3][0]] + [e for e in ans[3][1:] if isinstance(e, list) and e and _real_comparable(e[0])]] + ans[4:]
+        # the regex engine is not run beyond its length limit: there the second stream is not compared
+        if isinstance(ans[4], list):
+            ans[4] = [ans[4][0]] + [[p[0], Sym('same')] if isinstance(p, list) and len(p) == 2 and str(p[1]) == 'skipped' else p
+                                    for p in ans[4][1:]]
     return ans
 
 
